@@ -4,12 +4,14 @@ stdin:  {"cases": [case, ...], "scratch": dir}
 case (kind "arr"):  a cfdm.SubsampledArray built directly
     {"kind": "arr", "name": "linear"|"bi_linear"|"quadratic",
      "tp": nested list of numbers, "shape": [...uncompressed, incl. bounds dim],
-     "tpi": {"<dim>": [...]}, "w": [...]|null, "wdim": int,
-     "tp_dtype": "f8"|"i4"..., "ops": [op, ...]}
+     "tpi": {"<dim>": [...]}, "w": [...]|null, "wdim": int, "zz": [...]|null (unused parameter),
+     "tp_dtype": "f8"|"f4"|"i2"|"i4"|"i8", "w_dtype": ..., "comp_prec": null|"32"|"64",
+     "tpi_order": [dims in dict insertion order], "param_order"/"pdim_order": [names in insertion order],
+     "ops": [op, ...]}
 case (kind "file"): a hand-encoded CF-netCDF file read back with cfdm.read
     {"kind": "file", "name": ..., "dims": [[ncdim, size, subsampled_size|null], ...],
      "tpi": {"<ncdim>": [...]}, "coords": [{"ncvar", "tp", "btp"|null}], "ops": [...]}
-op:  {"op": "array"} | {"op": "getitem", "index": [i, ...]} | {"op": "first"} | {"op": "last"}
+op:  {"op": "array"} | {"op": "copy_array"} | {"op": "getitem", "index": [i, ...]} | {"op": "first"} | {"op": "last"}
      | {"op": "tpi"}            (file cases: the tie point indices as read)
      i = int | {"s": [a, b, c]} | {"l": [ints]} | "..."
 stdout: one JSON line per case: {"res": [result per op]} where a result is
@@ -79,6 +81,10 @@ def run_ops(objs, ops):
                 a = tgt[conv_index(op["index"])].array
                 res.append(canon(a))
                 scribble(a)
+            elif k == "copy_array":
+                a = tgt.copy().array
+                res.append(canon(a))
+                scribble(a)
             elif k == "first":
                 res.append(scalar(tgt.first_element()))
             elif k == "last":
@@ -92,18 +98,27 @@ def run_ops(objs, ops):
 
 def build_arr(c):
     tp = np.array(c["tp"], dtype=c.get("tp_dtype", "f8"))
-    params, pdims = {}, {}
+    # every dictionary argument is built in the insertion order the case asks for
+    pvals = {}
     if c.get("w") is not None:
-        params["w"] = cfdm.InterpolationParameter(data=cfdm.Data(np.array(c["w"], dtype="f8")))
-        pdims["w"] = (int(c["wdim"]),)
+        pvals["w"] = (np.array(c["w"], dtype=c.get("w_dtype", "f8")), (int(c["wdim"]),))
+    if c.get("zz") is not None:
+        # an interpolation parameter the method does not use
+        pvals["zz"] = (np.array(c["zz"], dtype="f8"), (int(c["wdim"]),))
+    porder = [k for k in c.get("param_order", sorted(pvals)) if k in pvals]
+    dorder = [k for k in c.get("pdim_order", porder) if k in pvals]
+    params = {k: cfdm.InterpolationParameter(data=cfdm.Data(pvals[k][0])) for k in porder}
+    pdims = {k: pvals[k][1] for k in dorder}
+    torder = [str(d) for d in c.get("tpi_order", sorted(int(k) for k in c["tpi"]))]
     a = cfdm.SubsampledArray(
         interpolation_name=c["name"],
         compressed_array=cfdm.Data(tp),
         shape=tuple(c["shape"]),
-        tie_point_indices={int(d): cfdm.TiePointIndex(data=cfdm.Data(np.array(v, dtype="i4")))
-                           for d, v in c["tpi"].items()},
+        tie_point_indices={int(d): cfdm.TiePointIndex(data=cfdm.Data(np.array(c["tpi"][d], dtype="i4")))
+                           for d in torder},
         parameters=params,
         parameter_dimensions=pdims,
+        computational_precision=c.get("comp_prec"),
     )
     return cfdm.Data(a)
 
@@ -137,13 +152,14 @@ def build_file(c, path):
     names = []
     for co in c["coords"]:
         dims = tuple(tp_dims[i] for i in co["axes"])
-        v = nc.createVariable(co["ncvar"], "f8", dims)
-        v[...] = np.array(co["tp"], dtype="f8")
+        dt = co.get("dtype", "f8")
+        v = nc.createVariable(co["ncvar"], dt, dims)
+        v[...] = np.array(co["tp"], dtype=dt)
         v.standard_name = co["standard_name"]
         v.units = co["units"]
         if co.get("btp") is not None:
-            b = nc.createVariable(co["ncvar"] + "_bnds", "f8", dims)
-            b[...] = np.array(co["btp"], dtype="f8")
+            b = nc.createVariable(co["ncvar"] + "_bnds", dt, dims)
+            b[...] = np.array(co["btp"], dtype=dt)
             v.bounds_tie_points = co["ncvar"] + "_bnds"
         names.append(co["ncvar"] + ":")
     q.coordinate_interpolation = " ".join(names) + " interp"
